@@ -99,8 +99,17 @@ def build(name, pkg="./internal/verif/props/", race=False, instr=False, tags="ve
         return None
     return out
 
+def build_main():
+    """The worker built from cmd/arcaflow (package main) for C20's exit-code oracle."""
+    return build("main.test", pkg="./cmd/arcaflow/")
+
+
 if __name__ == "__main__":
     name = sys.argv[1] if len(sys.argv) > 1 else "plain.test"
+    if name == "main.test":
+        p = build_main()
+        print(p)
+        sys.exit(0 if p else 2)
     p = build(name, race="race" in name, instr="sched" in name)
     print(p)
     sys.exit(0 if p else 2)
